@@ -255,7 +255,7 @@ def crash_points(writes, final, rng, tier):
     except Exception:
         pass
     small, medium = nb <= 12, nb <= 60
-    budget_ops = len(bounds) if medium else (40 if tier == "quick" else 120)
+    budget_ops = len(bounds) if medium else (40 if tier == "quick" else 80)
     step = max(1, len(bounds) // budget_ops)
     ks.update(bounds[::step]); ks.update(bounds[-3:])
     for endcard, dend in data_ends:
@@ -334,8 +334,8 @@ def check_table(env, params, rng, tier, full=False):
         f = env.p("crash_%d.fits" % k)
         open(f, "wb").write(crash_bytes(writes, k)); files.append(("k%d" % k, f))
     rres, pr = env.read(files)
-    model_budget = (6 if tier == "quick" else 150) * 1000 * 1000       # bytes of crash states pushed through the model reader
-    max_mks = 90 if tier == "quick" else 600
+    model_budget = (6 if tier == "quick" else 25) * 1000 * 1000       # bytes of crash states pushed through the model reader
+    max_mks = 90 if tier == "quick" else 250
     mks, used = [], 0
     order = sorted(ks, key=lambda k: ((k * 2654435761) % 97, k))          # a spread-out, deterministic sample
     for k in order:
@@ -383,7 +383,7 @@ def check_table(env, params, rng, tier, full=False):
     nops = len([o for o in ops if o[0] in ("W", "S", "F", "C", "T")])
     nsteps = len(steps_file)
     runs = []
-    idx = list(range(nops)) if (nops <= 60 or full) else sorted(set([0, 1, nops - 3, nops - 2, nops - 1] + [rng.below(nops) for _ in range(30 if tier == "quick" else 120)]))
+    idx = list(range(nops)) if (nops <= 60 or full) else sorted(set([0, 1, nops - 3, nops - 2, nops - 1] + [rng.below(nops) for _ in range(30 if tier == "quick" else 60)]))
     for i in idx:
         runs.append({"kind": "stdio", "failop": i, "writer": "file"})
     for i in idx[:: max(1, len(idx) // 6)] + idx[-2:]:
@@ -465,6 +465,11 @@ def check_table(env, params, rng, tier, full=False):
         for g in (r["out"], r["out"] + ".rdump", r["log"], r["log"] + ".bin"):
             if os.path.exists(g):
                 os.remove(g)
+    for g in os.listdir(env.work):      # keep the work directory small
+        try:
+            os.remove(os.path.join(env.work, g))
+        except OSError:
+            pass
     return fails
 
 # ------------------------------------------------------------------------------------------------
@@ -497,7 +502,7 @@ def run(info, out):
     env = Env("main")
     corpus = load_corpus()
     tables = list(corpus) + [t for t in QUICK_TABLES if t not in corpus]
-    nrand = 5 if tier == "quick" else 60
+    nrand = 5 if tier == "quick" else 24
     tables.append(BIG_TABLE if tier == "thorough" else {"axes": [60000], "seed": 8, "coef": "smooth"})   # ~ 420 / ~ 270 blocks
     tables += [random_params(rng.fork("t%d" % i), tier) for i in range(nrand)]
     if tier == "thorough":
